@@ -200,7 +200,10 @@ def _float_of(s):
     if symbolic(s):
         k = V.float_of_str_k(s)
         return V.VFloat(V.float_of_str_v(s), k)
-    return float(s)
+    try:
+        return float(s)
+    except ValueError:
+        return None
 
 
 def _within(a, v):
@@ -322,3 +325,164 @@ ISO = C(
 )
 
 MEMBER_CONTRACTS = [REQ, OPT, CONST, ENUM, TYPE, REGEX, RANGE, MAXLEN, MINLEN, DATE, ISO]
+
+
+# ====================================================================================================
+# Chain level (C08.P14, P15). Chains have a concrete spine of n members (n <= 4 is the property's own
+# bound); members, their parameters and the value are fully symbolic.
+from verif.pyvc.interp import SList as _SList, SObj as _SObj, SymObj as _SymObj, SymSeq as _SymSeq  # noqa: E402
+from verif.pyvc import calls as _calls  # noqa: E402
+
+KINDS = ["RequiredConstraint", "OptionalConstraint", "ConstConstraint", "EnumConstraint", "TypeConstraint", "RegexConstraint", "DirConstraint", "AppendOnlyConstraint",
+         "RangeConstraint", "MaxLengthConstraint", "MinLengthConstraint", "DateConstraint", "Iso8601Constraint", "LiteralConstraint", "LangConstraint"]
+
+acc = z3.Function("acc", z3.IntSort(), V.Val, z3.BoolSort())  # verdict of member `ref` on a value (contract of Constraint.evaluate)
+errlen = z3.Function("errlen", z3.IntSort(), V.Val, z3.IntSort())
+tostr = z3.Function("to_string", z3.IntSort(), z3.StringSort())
+
+
+class ChainSelf(P):
+    def __init__(self, n: int):
+        self.n = n
+
+    def make(self, I, name):
+        refs = [z3.Int(f"{name}.c{i}") for i in range(self.n)]
+        ids = [V.class_id(k) for k in KINDS]
+        for r in refs:
+            I.base_assumptions.append(z3.Or(*[V.cls_of(r) == i for i in ids]))
+        if len(refs) > 1:
+            I.base_assumptions.append(z3.Distinct(*refs))
+        for r in refs:
+            cv = I.make_field("ConstConstraint", "const_value", "val", r)
+            # const values are atoms (they come from _parse_atom): no heap objects, no NaN
+            I.base_assumptions.append(z3.And(z3.Not(V.is_VObj(cv)), z3.Not(z3.And(V.is_VFloat(cv), V.Val.fk(cv) == 3)), wf(cv)))
+        o = _SObj("ConstraintChain", {"constraints": _SList([_SymObj(r, "Constraint") for r in refs], fresh_obj=False)}, fresh_obj=False, name=name)
+        o._refs = refs
+        return o
+
+    def concrete(self, m, sym, ctx):
+        raise NotImplementedError("chain-level counter-models are not rebuilt (members are abstract): reported without a replayable input")
+
+
+def wf(v):
+    from verif.pyvc.verify import wf_val
+
+    return wf_val(v)
+
+
+def _chain_setup(I):
+    I.declare_field("ConstConstraint", "const_value", "val")
+    I.declare_field("EnumConstraint", "allowed_values", "strlist")
+    r, v = z3.Int("r"), z3.Const("v", V.Val)
+    I.base_assumptions.append(z3.ForAll([r, v], z3.And(errlen(r, v) >= 0, (errlen(r, v) > 0) == z3.Not(acc(r, v))), patterns=[errlen(r, v)]))
+    # EnumConstraint.__post_init__ has already run: lengths are non-negative
+    ln = z3.Function("EnumConstraint.allowed_values.len", z3.IntSort(), z3.IntSort())
+    I.base_assumptions.append(z3.ForAll([r], ln(r) >= 0, patterns=[ln(r)]))
+
+
+def _virtual_evaluate(I, self_obj, pos, kw, st):
+    """Contract of Constraint.evaluate used at call sites: returns ValidationResult(valid=acc(self,value),
+    errors=<list with errlen(self,value) elements>), never raises (see the member contracts: none of
+    the evaluate bodies has an exceptional exit)."""
+    value = pos[0] if pos else kw["value"]
+    vv = I.as_val(value)
+    ref = self_obj.ref
+    errs = _SymSeq(None, "obj", f"errors({ref})", errlen(ref, vv), "ValidationError", lambda i: _SObj("ValidationError", {"code": z3.Function("err_code", z3.IntSort(), V.Val, z3.IntSort(), z3.StringSort())(ref, vv, i if V.is_z3(i) else z3.IntVal(i))}))
+    yield st, _SObj("ValidationResult", {"valid": acc(ref, vv), "errors": errs})
+
+
+def _virtual_to_string(I, self_obj, pos, kw, st):
+    yield st, tostr(self_obj.ref)
+
+
+def _is(ref, kind):
+    return V.cls_of(ref) == V.class_id(kind)
+
+
+def conflict_formula(I, chain) -> z3.ExprRef:
+    """conflict(cs) from the property text: REQ with OPT, two different CONSTs, a CONST outside an ENUM."""
+    refs = chain._refs
+    req = z3.Or(*[_is(r, "RequiredConstraint") for r in refs]) if refs else z3.BoolVal(False)
+    opt = z3.Or(*[_is(r, "OptionalConstraint") for r in refs]) if refs else z3.BoolVal(False)
+    cv = lambda r: I.make_field("ConstConstraint", "const_value", "val", r)  # noqa: E731
+    two = [z3.And(_is(a, "ConstConstraint"), _is(b, "ConstConstraint"), z3.Not(V.py_eq(cv(a), cv(b)))) for i, a in enumerate(refs) for b in refs[i + 1:]]
+    outside = []
+    for e in refs:
+        for c in refs:
+            if e is c:
+                continue
+            al = I.make_field("EnumConstraint", "allowed_values", "strlist", e)
+            j = z3.FreshInt("sj")
+            member = z3.Exists([j], z3.And(j >= 0, j < al.length, al.at(j) == V.py_str(cv(c))))
+            outside.append(z3.And(_is(e, "EnumConstraint"), _is(c, "ConstConstraint"), z3.Not(member)))
+    return z3.Or(z3.And(req, opt), *(two + outside))
+
+
+def _call_method(name):
+    def f(fn, args):
+        return getattr(args["self"], name)(**{k: v for k, v in args.items() if k != "self"})
+
+    return f
+
+
+def detect_conflicts_contract(n: int) -> FunctionContract:
+    holder = {}
+
+    def setup(I):
+        _chain_setup(I)
+        holder["I"] = I
+
+    def post_iff(a, r):
+        from verif.pyvc.spec import length
+
+        ln = length(r)
+        nonempty = (ln > 0) if not isinstance(ln, int) else (ln > 0)
+        return Iff(nonempty, conflict_formula(holder["I"], a.self))
+
+    return FunctionContract(
+        M, "ConstraintChain.detect_conflicts", {"self": ChainSelf(n)}, {f"conflicts_iff[n={n}]": post_iff}, setup=setup,
+        callee_contracts={f"{M}:Constraint.to_string": _virtual_to_string, f"{M}:ConstConstraint.to_string": _virtual_to_string, f"{M}:EnumConstraint.to_string": _virtual_to_string},
+        call=_call_method("detect_conflicts"), timeout_ms=30000,
+    )
+
+
+def chain_evaluate_contract(n: int) -> FunctionContract:
+    holder = {}
+
+    def setup(I):
+        _chain_setup(I)
+        holder["I"] = I
+
+    def detect_contract(I, self_obj, pos, kw, st):
+        # contract of detect_conflicts (proved separately for the same n): non-empty iff conflict(cs)
+        k = z3.FreshInt("nconf")
+        st.pc.append(z3.And(k >= 0, (k > 0) == conflict_formula(I, self_obj)))
+        yield st, _SymSeq(None, "obj", "conflicts", k, "ConstraintConflictError", lambda i: _SObj("ConstraintConflictError", {"constraint1": z3.String("c1"), "constraint2": z3.String("c2"), "reason": z3.String("rs")}))
+
+    def accept(a):
+        I = holder["I"]
+        v = I.as_val(a.value)
+        return z3.And(z3.Not(conflict_formula(I, a.self)), *[acc(r, v) for r in a.self._refs])
+
+    def post_iff(a, r):
+        return Iff(valid(r), accept(a))
+
+    def post_conflict_codes(a, r):
+        from verif.pyvc.spec import forall_index
+
+        I = holder["I"]
+        return Implies(conflict_formula(I, a.self), And(Not(valid(r)), forall_index(attr(r, "errors"), lambda j, e: str_eq(attr(e, "code"), "E999"))))
+
+    def post_wf(a, r):
+        from verif.pyvc.spec import length
+
+        ln = length(attr(r, "errors"))
+        return Iff(valid(r), ln == 0)
+
+    return FunctionContract(
+        M, "ConstraintChain.evaluate", {"self": ChainSelf(n), "value": ANY, "path": Str()},
+        {f"valid_iff_accept[n={n}]": post_iff, f"conflict_errors_E999[n={n}]": post_conflict_codes, f"wf[n={n}]": post_wf},
+        setup=setup,
+        callee_contracts={f"{M}:ConstraintChain.detect_conflicts": detect_contract, f"{M}:Constraint.evaluate": _virtual_evaluate},
+        call=_call_method("evaluate"), timeout_ms=30000,
+    )
